@@ -328,3 +328,40 @@ Example C18_ex_attribute_roundtrip :
      = Ok {| pd_before := mkSize (67 # 25) PX; pd_after := mkSize (3 # 25) PCT; pd_start := mkSize (1 # 2) CELL; pd_end := mkSize (100 # 1) EM |}
   /\ two_sizes (lit "1px 2px 3px") = Err ValueError /\ two_sizes (lit "1px") = Err ValueError.
 Proof. vm_compute. repeat split. Qed.
+
+(* ==== round 4 ========================================================================================================= *)
+From PV Require Import proofs.GeomHashPrintFacts.
+
+(* the hash clause per class (instances of C18_eq_implies_hash_eq, spelled out): == values of Size / Point / Stretch /
+   Padding / Alignment / Layout - Layout and Alignment components may be None - have equal hashes, for every hash function
+   of floats, enum members, None and ints *)
+Theorem C18_hash_eq_per_class :
+  forall (hq : Q -> Z) (hu : unit_ -> Z) (hh : option halign -> Z) (hv : option valign -> Z) (hnone : Z) (hint : Z -> Z),
+    (forall a b, size_eqb a b = true -> size_hash hq hu hint a = size_hash hq hu hint b)
+    /\ (forall a b, point_eqb a b = true -> point_hash hq hu hint a = point_hash hq hu hint b)
+    /\ (forall a b, stretch_eqb a b = true -> stretch_hash hq hu hint a = stretch_hash hq hu hint b)
+    /\ (forall a b, padding_eqb a b = true -> padding_hash hq hu hint a = padding_hash hq hu hint b)
+    /\ (forall a b, alignment_eqb a b = true -> alignment_hash hh hv hint a = alignment_hash hh hv hint b)
+    /\ (forall a b, layout_eqb a b = true -> layout_hash hq hu hh hv hnone hint a = layout_hash hq hu hh hv hnone hint b).
+Proof. exact hash_eq_per_class. Qed.
+Print Assumptions C18_hash_eq_per_class.
+
+(* Size printing on EVERY non-negative rational, as one Prop-level statement: the printed string is in canonical form
+   (digits without a leading zero, optionally a point and one or two digits without a trailing zero, then the unit), and
+   Size.from_string reads it back with the same unit and a value within 1/200 *)
+Theorem C18_print_canonical_reparse : forall a, (0 <= s_val a)%Q ->
+  exists ip fp z,
+    size_str a = dotted ip fp ++ unit_str (s_unit a)
+    /\ all_digits ip = true /\ (fp = [] \/ all_digits fp = true)
+    /\ no_leading_zero ip /\ (length fp <= 2)%nat /\ no_trailing_zero fp
+    /\ size_from_string (size_str a) = Ok z /\ s_unit z = s_unit a /\ (Qabs (s_val z - s_val a) <= 1 # 200)%Q.
+Proof. exact print_canonical_reparse. Qed.
+Print Assumptions C18_print_canonical_reparse.
+
+Example C18_ex_layout_hash_none :
+  let a := mkLayout None None None (Some (mkAlign None (Some VTop))) (Some (lit "line:1")) in
+  let b := mkLayout None None None (Some (mkAlign None (Some VTop))) None in
+  layout_eqb a b = true
+  /\ layout_hash (fun q => Qnum q) (fun _ => 1) (fun _ => 2) (fun _ => 3) 7 (fun z => z) a
+     = layout_hash (fun q => Qnum q) (fun _ => 1) (fun _ => 2) (fun _ => 3) 7 (fun z => z) b.
+Proof. vm_compute. split; reflexivity. Qed.
